@@ -28,6 +28,7 @@ Section Oracle.
     eo_local : entry_name e <> s_local_module;
     eo_cc : cc_check (zs_cc st) (entry_name e) (entry_is_dir e) = (zs_cc st', true);
     eo_cue_mod : cz_cue_mod (entry_name e) <> None;
+    eo_mod : zs_mod st' = true -> zs_mod st = true \/ entry_name e = s_cue_mod_module_cue;
     eo_dir : entry_is_dir e = true -> v = VSkipped /\ zs_size st' = zs_size st /\ zs_size_err st' = zs_size_err st;
     eo_file : entry_is_dir e = false ->
               v = VValid /\
@@ -35,6 +36,28 @@ Section Oracle.
               ~ (entry_name e = s_cue_mod_module_cue /\ (MaxCUEMod < to_int64 (e_declared e))%Z) /\
               ~ (entry_name e = s_license /\ (MaxLICENSE < to_int64 (e_declared e))%Z)
   }.
+
+  Lemma split_cue_mod_aux_app : forall fuel p s a b, split_cue_mod_aux fuel p s = (a, b) -> p = a ++ b.
+  Proof.
+    induction fuel as [|k IH]; intros p s a b H; cbn [split_cue_mod_aux] in H.
+    - inversion H; subst. rewrite app_nil_r. reflexivity.
+    - destruct (path_split s) as [dir f]. destruct (ascii_eqfold f s_cue_mod).
+      + inversion H; subst. symmetry. apply firstn_skipn.
+      + destruct (trim_right_slash dir); [inversion H; subst; rewrite app_nil_r; reflexivity|].
+        eapply IH; eauto.
+  Qed.
+
+  Lemma cz_cue_mod_true : forall name, cz_cue_mod name = Some true -> name = s_cue_mod_module_cue.
+  Proof.
+    intros name H. unfold cz_cue_mod in H. destruct (split_cue_mod name) as [prefix rest] eqn:S.
+    apply split_cue_mod_aux_app in S.
+    destruct rest as [|r0 rest']; [inversion H|]. destruct prefix; [|inversion H].
+    destruct (negb (contains_byte c_slash (r0 :: rest'))); [inversion H|].
+    destruct (negb (has_prefix s_cue_mod_slash (r0 :: rest'))); [inversion H|].
+    destruct (ascii_eqfold (r0 :: rest') s_cue_mod_module_cue); [|inversion H].
+    destruct (str_eqb (r0 :: rest') s_cue_mod_module_cue) eqn:E; cbn [negb] in H; [|inversion H].
+    apply str_eqb_eq in E. simpl in S. congruence.
+  Qed.
 
   Lemma cz_step_inv : forall st e v st', cz_step st e = (v, st') -> v <> VInvalid -> entry_ok st e v st'.
   Proof.
@@ -47,7 +70,8 @@ Section Oracle.
     apply str_eqb_eq in C. apply str_eqb_neq in L.
     destruct (cz_cue_mod (entry_name e)) as [is_mod|] eqn:CM; [|inversion H; congruence].
     destruct (entry_is_dir e) eqn:D.
-    - inversion H; subst. constructor; cbn [zs_cc zs_size zs_size_err]; auto; try congruence.
+    - inversion H; subst. constructor; cbn [zs_cc zs_size zs_size_err zs_mod]; auto; try congruence.
+      intros M. apply orb_true_iff in M. destruct M as [M|M]; auto. subst. right. apply cz_cue_mod_true. exact CM.
     - destruct (str_eqb (entry_name e) s_cue_mod_module_cue && (MaxCUEMod <? to_int64 (e_declared e))%Z) eqn:M1;
         [inversion H; congruence|].
       destruct (str_eqb (entry_name e) s_license && (MaxLICENSE <? to_int64 (e_declared e))%Z) eqn:M2;
@@ -55,7 +79,10 @@ Section Oracle.
       inversion H; subst; clear H.
       assert (CCeq : forall s z, zs_cc (cz_account s z) = zs_cc s).
       { intros. unfold cz_account. destruct ((0 <=? z)%Z && _); reflexivity. }
-      constructor; rewrite ?CCeq; cbn [zs_cc zs_size zs_size_err]; auto; try congruence.
+      assert (MDeq : forall s z, zs_mod (cz_account s z) = zs_mod s).
+      { intros. unfold cz_account. destruct ((0 <=? z)%Z && _); reflexivity. }
+      constructor; rewrite ?CCeq, ?MDeq; cbn [zs_cc zs_size zs_size_err zs_mod]; auto; try congruence.
+      { intros M. apply orb_true_iff in M. destruct M as [M|M]; auto. subst. right. apply cz_cue_mod_true. exact CM. }
       intros _. split; [reflexivity|]. split; [exists (zs_mod st || is_mod); reflexivity|].
       split.
       + intros [A B]. apply str_eqb_eq in A. rewrite A in M1. cbn [andb] in M1. apply Z.ltb_lt in B. congruence.
